@@ -177,6 +177,14 @@ func nestText(kind, depth int) string {
 		open, close, core_ = "", ")", "1"
 	case 10:
 		open, close, core_ = "[", "", ""
+	case 12: // blocks in which the nested construct is not the first statement
+		open, close, core_ = "if true {\n0\n", "\n}", "1"
+	case 13:
+		open, close, core_ = "f = () -> {\nx = 1\n", "\n}", "x"
+	case 14:
+		open, close, core_ = "while false {\n1\n", "\n2\n}", "3"
+	case 15:
+		open, close, core_ = "for i <- fromto(0, 1) {\ni\n", "\n}", "i"
 	default:
 		open, close, core_ = "1+(", ")", "2"
 	}
@@ -203,7 +211,7 @@ func init() {
 	}
 	register(&core.Property{
 		ID:          "C06",
-		Rule:        "inputs: every prefix of every corpus program (thorough: all; quick: every 7th), uniform random bytes, alphabet-weighted token soup, corpus mutations (truncate, delete, duplicate, splice, one byte replaced by each of " + fmt.Sprint(len(interesting)) + " interesting bytes), bracket nesting of 12 kinds to depth 5000 (balanced and unbalanced), literals/names/operator runs up to 10^5 characters, and valid-statements + erroneous-tail inputs through processInput. non-trivial = parsed to >= 1 statement or rejected with a span; distinct by input text. Termination is decided as bounded progress: lexer iterations <= 4*len+64 and TLexer.Next calls <= 1000*(len+16) per parse (measured maxima are in measured_maxima).",
+		Rule:        "inputs: every prefix of every corpus program (thorough: all; quick: every 7th), uniform random bytes, alphabet-weighted token soup, corpus mutations (truncate, delete, duplicate, splice, one byte replaced by each of " + fmt.Sprint(len(interesting)) + " interesting bytes), bracket nesting of 16 kinds to depth 5000 (balanced and unbalanced), literals/names/operator runs up to 10^5 characters, and valid-statements + erroneous-tail inputs through processInput. non-trivial = parsed to >= 1 statement or rejected with a span; distinct by input text. Termination is decided as bounded progress: lexer iterations <= 4*len+64 and TLexer.Next calls <= 1000*(len+16) per parse (measured maxima are in measured_maxima).",
 		Assumptions: []string{"nesting beyond depth 5000 is a Go stack-size resource limit and out of reach", "the error display is accepted when it starts with the message and ends with a caret line; messages that quote a multi-line token may span more than three lines"},
 		Families: []core.Family{
 			{Name: "prefix", Count: func(t string) int { return tierN(t, (prefixTotal()+6)/7, prefixTotal()) }, Run: func(ctx *core.Ctx, idx int) core.Result {
@@ -250,12 +258,12 @@ func init() {
 				}
 				return c06Front(s, "mutation")
 			}},
-			{Name: "nesting", Count: countFn(12*8, 12*40), Run: func(ctx *core.Ctx, idx int) core.Result {
-				kind := idx % 12
+			{Name: "nesting", Count: countFn(16*8, 16*40), Run: func(ctx *core.Ctx, idx int) core.Result {
+				kind := idx % 16
 				depths := []int{1, 2, 3, 10, 100, 1000, 2500, 5000}
 				var depth int
-				if idx/12 < len(depths) {
-					depth = depths[idx/12]
+				if idx/16 < len(depths) {
+					depth = depths[idx/16]
 				} else {
 					depth = core.CaseRng(ctx.Seed, "C06/nesting", idx).Range(4, 5000)
 				}
